@@ -30,6 +30,31 @@ DoLog(id) ==
   /\ head' = IF head + 1 >= WrapAt THEN head + 1 - Cap ELSE head + 1
 
 Log(id) == DoLog(id) /\ nextId' = (id + 1) % MaxId /\ ret' = <<>>
+(* n >= Cap messages nextId, nextId+1, ... in a row, nothing read in between: the closed form of n times Log (checked        *)
+(* against the iteration by BurstIsIteratedLog in Mlog_mc); every intermediate value stays below 2^31 for n <= 2^30           *)
+HeadAfter(h, n) == LET room == WrapAt - 1 - h IN           \* messages that still fit before the counter reaches WrapAt - 1
+                   IF n <= room THEN h + n ELSE WrapAt - Cap + ((n - room - 1) % Cap)
+BurstF(st, n) ==
+  [win |-> [i \in 1..Cap |-> (st.nextId + (n - Cap) + (i - 1)) % MaxId],
+   cnt |-> Cap, known |-> Cap,
+   slot |-> [j \in 0..(Cap-1) |->
+               LET i == CHOOSE i \in 1..Cap : ((st.head % Cap) + ((n - Cap + i - 1) % Cap)) % Cap = j IN (st.nextId + (n - Cap) + (i - 1)) % MaxId],
+   head |-> HeadAfter(st.head, n),
+   nextId |-> ((st.nextId % MaxId) + (n % MaxId)) % MaxId]
+LogF(st) ==
+  [win |-> Push(st.win, st.nextId), cnt |-> Min(st.cnt + 1, Cap), known |-> Min(st.known + 1, Cap),
+   slot |-> [st.slot EXCEPT ![st.head % Cap] = st.nextId],
+   head |-> IF st.head + 1 >= WrapAt THEN st.head + 1 - Cap ELSE st.head + 1,
+   nextId |-> (st.nextId + 1) % MaxId]
+RECURSIVE IterF(_, _)
+IterF(st, n) == IF n = 0 THEN st ELSE IterF(LogF(st), n - 1)
+Now == [win |-> win, cnt |-> cnt, known |-> known, slot |-> slot, head |-> head, nextId |-> nextId]
+BurstIsIteratedLog == \A n \in Cap..(3 * Cap + 3) : BurstF(Now, n) = IterF(Now, n)
+Burst(n) ==
+  /\ n >= Cap
+  /\ LET r == BurstF(Now, n) IN
+     /\ win' = r.win /\ cnt' = r.cnt /\ known' = r.known /\ slot' = r.slot /\ head' = r.head /\ nextId' = r.nextId
+  /\ ret' = <<>>
 (* mlog_nice: only while fewer than Cap messages have been recorded since the clear *)
 Nice(id) == /\ IF cnt < Cap THEN DoLog(id) ELSE UNCHANGED <<win, cnt, head, slot, known>>
             /\ nextId' = (id + 1) % MaxId /\ ret' = <<>>
@@ -52,5 +77,5 @@ Spec == Init /\ [][Next]_vars
 
 Refines == Readable => \A k \in -2..(Cap+1) : GetImpl(k) = GetAbs(k)
 CntIsMin == cnt = Min(head, Cap) /\ head < WrapAt
-Safety == Refines /\ CntIsMin
+Safety == Refines /\ CntIsMin /\ BurstIsIteratedLog
 =============================================================================
